@@ -77,6 +77,8 @@ MOD_ITEMS = {
     "pextern": dict(src="extern \"C\" fn p{n}(deps: %s) -> u32 {{ {n} }}" % ANY, member=False),
     "pconst":  dict(src="const fn p{n}(deps: %s) -> u32 {{ {n} }}" % ANY, member=False),
     "struct":   dict(src="pub struct S{n} {{ pub f: u8 }}\n    impl S{n} {{ pub fn g{n}(&self) -> u32 {{ 0 }} pub(crate) fn h{n}() {{}} }}", member=False),
+    # items whose *header* contains `=` before the brace body (defaulted generics, associated-type bindings)
+    "structdef": dict(src="pub struct D{n}<T = u32> {{ pub t: T }}\n    impl<I: ::core::iter::Iterator<Item = u8>> ::core::convert::From<I> for D{n}<u8> {{ fn from(mut i: I) -> Self {{ D{n} {{ t: i.next().unwrap_or(0) }} }} }}", member=False),
     "mod":      dict(src="pub mod inner{n} {{ pub fn nested{n}(deps: %s) -> u32 {{ 0 }} }}" % ANY, member=False),
     "foreign":  dict(src="extern \"C\" {{ pub fn ext{n}(x: i32) -> i32; }}", member=False),
     "macro":    dict(src="macro_rules! mr{n} {{ () => {{ pub fn generated{n}(deps: &()) {{}} }}; (;) => {{ ; }}; }}", member=False),
@@ -89,10 +91,10 @@ MOD_ITEMS = {
 MOD_ITEM_ORDER = ["pub", "priv", "crate", "struct", "super", "async", "mod", "unsafe", "foreign", "in", "macro",
                   "extern", "bodyless", "constblk", "use", "static", "trait", "const",
                   "pasync", "attrpub", "punsafe", "asyncunsafe", "pextern", "pconst",
-                  "unsafeextern", "asyncextern", "asyncunsafeextern", "constunsafe", "constextern", "constunsafeextern"]
+                  "unsafeextern", "asyncextern", "asyncunsafeextern", "constunsafe", "constextern", "constunsafeextern", "structdef"]
 # interplay alphabet for the longest words (one representative per item class)
 MOD_ITEM_CORE = ["pub", "priv", "crate", "struct", "async", "mod", "unsafe", "foreign", "macro", "bodyless", "constblk",
-                 "use", "static", "trait"]
+                 "use", "static", "trait", "structdef"]
 
 
 def mod_item_src(sym, n, key):
